@@ -7,7 +7,7 @@ from oracle_util import *  # noqa
 from protocol import from_real, KEY_IDX
 
 ID = "C13"
-LEAN_MODULE = ["SCoda.Props.C13", "SCoda.Props.C15", "SCoda.Props.C12"]
+LEAN_MODULE = ["SCoda.Props.C13", "SCoda.Props.C15", "SCoda.Props.C12", "SCoda.Props.C13b"]
 CLAUSES = [
     ("every created event sits at roundHalfEven(prefix sum of the deltas * 24 / file_ppq): error <= 1/2 tick, exact on integers, and the running file tick is "
      "the plain sum of deltas — no rounding is fed back (no accumulation)",
@@ -24,6 +24,25 @@ CLAUSES = [
      "union over the group's tracks of their note events at the rounded exact positions; every signature on the meta target is the default 4/4 or comes "
      "from a considered track at its rounded position; the other sequences carry no signature (zero-length notes after rescaling: known finding D17, outside GoodTrack)",
      ["SCoda.C13.load_sounding", "SCoda.C13.trackMsgs_sorted", "SCoda.C13.load_signatures", "SCoda.C13.signatures_only_on_target"]),
+    ("COMPLETENESS of meta routing (audit A7a): for any resolution, any grouping (overlapping included), any meta selection and any valid target, the time signature "
+     "and the key signature in force at every tick on the loaded meta sequence are those in force in the independent list `fileSigs` (considered tracks in file order, "
+     "every signature stamped with its rounded tick, 4/4 by default; on equal ticks the later event wins, as observed on the library); composed with the parser model at "
+     "mido-file level the only hypotheses are the format's own (deltas >= 0, meta messages carry no channel); without the domain conditions the statements are refuted "
+     "on messages no parser produces (model wider than the parser's range)",
+     ["SCoda.C13b.load_time_signature_in_force", "SCoda.C13b.load_key_signature_in_force", "SCoda.C13b.load_signatures_in_force_file", "SCoda.C13b.parse_domain",
+      "SCoda.C13b.load_time_signature_in_force_statement_false", "SCoda.C13b.load_key_signature_in_force_statement_false"]),
+    ("routing for ARBITRARY files and groupings (audit A7b/c): every group receives exactly the tracks whose FIRST listing is in it (independent predicate FirstGroup) — "
+     "the union over all listed tracks, which the property states, is refuted on groups [[0],[0,1]] (known finding D20) and proved when no track is listed twice; "
+     "files with orphan note-offs, unclosed or overlapping notes: the sounding set is the union over the per-track normalised tracks, and over the raw tracks when every "
+     "note is eventually closed; the hypothesis is the counting predicate NotesClosed (weaker than GoodTrack), its zero-length part being known finding D17 (refuted example)",
+     ["SCoda.C13b.routing_first_group", "SCoda.C13b.routing_union_partial", "SCoda.C13b.routing_union_statement_false", "SCoda.C13b.routing_normalised",
+      "SCoda.C13b.routing_orphans", "SCoda.C13b.routing_first_group_statement_false", "SCoda.C13b.notesClosed_of_goodTrack"]),
+    ("every outcome of convert: IndexError exactly for an empty group, ValueError exactly for a target outside the groups when all groups are non-empty, success otherwise — "
+     "for any tracks and any meta selection", ["SCoda.C13b.empty_group_error", "SCoda.C13b.bad_target_exact", "SCoda.C13b.convert_succeeds"]),
+    ("parser (Model/MidiParse.lean, tied by the parseMido correspondence): a note-on with velocity 0 is a note-off and loads as one; each of the 15 key names the saver "
+     "writes is looked up to its own key in the regenerated KeyKeyMapping (decided over the generated tables)",
+     ["SCoda.C13b.parse_note_on_zero", "SCoda.C13b.note_on_zero_loads_as_off", "SCoda.C13b.parse_note_on_pos", "SCoda.C13b.key_table_round_trip",
+      "SCoda.C13b.key_count", "SCoda.C13b.saved_key_parses"]),
 ]
 RULE = ("MIDI files written with mido: resolutions from {1,7,24,48,96,100,480,960,997,32767}, 1-4 tracks, long delta "
         "patterns (drift), note-on velocity 0 as note-off, all groupings, meta selections and target indices, all 30 key names; "
@@ -314,4 +333,13 @@ def generate(ctx):
             ctx.count("tie-skipped-correspondence")
         else:
             ctx.corr("convert", P.op_convert(ppq, target, groups, meta, tracks, ctx.scratch))
+    # the parser, message by message: every mido kind the parser distinguishes, velocity 0, every key name mido accepts
+    import mido.midifiles.meta as _meta
+    names = sorted(set(_meta._key_signature_encode.keys())) if hasattr(_meta, "_key_signature_encode") else []
+    names = [k for k in names if isinstance(k, str)] or ["C", "Am", "F#", "Ebm", "A#m", "Abm", "Cb", "C#"]
+    for i in range(ctx.n(60, 600)):
+        ty = rng.randrange(7)
+        ctx.corr("parseMido", P.op_parseMido(ty, rng.choice([0, 1, 7, 480]), rng.choice([None, 0, 3, 15]), rng.randrange(128),
+                                             rng.choice([0, 0, 1, 64, 127]), rng.choice([1, 3, 4, 12]), rng.choice([2, 4, 8, 16]),
+                                             rng.choice(names), rng.randrange(128), rng.randrange(128), rng.randrange(128)))
         ctx.sample({"ppq": ppq, "groups": groups, "meta": meta, "target": target, "tracks": [t[:5] for t in tracks]})
